@@ -631,7 +631,7 @@ class Gen:
             self.o.ws(indent + " " * self.r.choice([4, 7, 9]))
             self.o.code("b)", owners)
             self.features.add("multiline-stmt")
-        elif k < 0.84:
+        elif k < 0.80:        # (rare: one backslash continuation puts the whole program outside the formal Python grammar)
             self.o.code("total = 1 + \\", owners)
             self.o.nl()
             self.o.ws(indent + "    ")
